@@ -138,11 +138,13 @@ MigNoResurrection ==
   /\ (Large /\ mig.ok) => (mig.sum.opent_ok /\ mig.sum.opent_equal)
 \* a failed migration leaves nothing: no destination (unless somebody else put one there), no
 \* temporary file
+\* (pre = "swaptemp": somebody renamed a foreign file over the migration's temporary name while it ran; what becomes
+\* of THAT file is nobody's promise, so the temporary-file clauses do not apply - but the destination clauses do)
 MigFailureClean ==
-  (AtEnd /\ ~mig.ok) => /\ ~mig.tmp_left
-                        /\ cs.pre \in {"none", "touch"} => ~mig.dst_exists
+  (AtEnd /\ ~mig.ok) => /\ cs.pre # "swaptemp" => ~mig.tmp_left
+                        /\ cs.pre \in {"none", "touch", "swaptemp"} => ~mig.dst_exists
 \* no temporary file survives a successful migration either
-MigNoLitter == AtEnd => ~mig.tmp_left
+MigNoLitter == (AtEnd /\ cs.pre # "swaptemp") => ~mig.tmp_left
 \* the bytes of the source file are the same before and after
 MigSourceUntouched == AtEnd => mig.src_same
 \* a source whose file stamp changes while the migration runs (somebody touched it) makes the migration
